@@ -105,6 +105,9 @@ def run_abort(case, chooser):
         rig.ev(0, "@connect")
         rig.ev(0, "USER anonymous")
         script = script_for(verb, size, data_conn, case.get("noread", False), case.get("rest", 0))
+        if case.get("close_fails"):
+            # the backend fails when the aborted transfer closes its file (disk full at flush, stale handle)
+            spy.fail_from, spy.fail_op = 0, "close"
         state = {"armed": False, "sent": False, "early": False, "mark": 0}
 
         def inject():
@@ -220,6 +223,8 @@ def run_abort(case, chooser):
                 problems.append({"kind": "appe-not-a-prefix", "got": repr(cur)})
         if spy.leaked() and not (case.get("noread") and still_running):
             problems.append({"kind": "file-handle-open", "paths": spy.leaked()})
+        if case.get("close_fails"):
+            spy.fail_from = None
         # follow-ups
         fu = case["followup"]
         if not s.closed():
@@ -365,6 +370,17 @@ def build_items(tier):
             for k in range(1, n + 2):
                 case = {"verb": verb, "size": size, "k": k, "backend": "async", "followup": "again" if k % 2 else "pwd",
                         "data_conn": True, "pipe": pipe}
+                items.append((case, 1 if tier == "quick" else 2, kinds))
+    # the backend fails when the transfer's file is closed (also when it is closed because of the ABOR)
+    for verb in ("RETR", "STOR", "APPE"):
+        for backend in ("memory", "async"):
+            size = 3 * B
+            probe = {"verb": verb, "size": size, "k": 10 ** 9, "backend": backend, "followup": "pwd", "data_conn": True,
+                     "probe": True}
+            n = run_abort(probe, Chooser())["events"]
+            for k in range(1, n + 2):
+                case = {"verb": verb, "size": size, "k": k, "backend": backend, "followup": "again" if k % 2 else "pwd",
+                        "data_conn": True, "close_fails": True}
                 items.append((case, 1 if tier == "quick" else 2, kinds))
     # the client drops its data connection (close / reset) right before it says ABOR
     for verb in ("RETR", "STOR", "LIST"):
